@@ -165,10 +165,130 @@ Section RL.
   Qed.
 
   (* ---------- every list command preserves the invariant ---------- *)
-  Theorem lstep_rep clock ts key c l : RepL clock l -> 0 <= clock < ts -> RepL ts (fst (lstep compact ts key c l)).
+  (* ---------- LFIXKEY: nothing to repair on a list that satisfies the invariant ---------- *)
+  (* every stored list lies strictly inside the sequence-number space (lpush refuses to reach its ends) *)
+  Definition InSpace (l : lcoll) : Prop :=
+    forall m, l_meta l = Some m -> list_min_seq < lm_head m /\ lm_tail m < list_max_seq.
+
+  Lemma lscan_mem v lo hi es s : In s (map fst (lscan v lo hi es)) <-> (exists x, In ((v, s), x) es) /\ lo <= s <= hi.
   Proof.
-    intros R L. assert (Rm : RepL ts l) by (eapply RepL_mono; [|exact R]; lia).
-    destruct c as [tail vs|tail|i x|start stop| |]; cbn [lstep]; try exact Rm.
+    unfold lscan. rewrite map_map. cbn [fst]. rewrite in_map_iff. split.
+    - intros ([[v' s'] x'] & E & H). cbn in E. subst s'. apply isort_In, filter_In in H. cbn in H.
+      destruct H as [H Hc]. assert (v' = v) by lia. subst. split; [exists x'; exact H|lia].
+    - intros [[x H] Hc]. exists ((v, s), x). split; [reflexivity|]. apply isort_In, filter_In. split; [exact H|cbn; lia].
+  Qed.
+  Lemma ssorted_map_seq (L : list (skey * bytes)) : ssorted seq_leb L -> ssorted Z.leb (map (fun e : skey * bytes => snd (fst e)) L).
+  Proof.
+    induction 1 as [|x r Hx S IH]; cbn [map]; constructor; [|exact IH].
+    intros y Hy. apply in_map_iff in Hy. destruct Hy as (e & <- & He). apply (Hx e He).
+  Qed.
+  Lemma lscan_seqs_sorted v lo hi es : ssorted Z.leb (map fst (lscan v lo hi es)).
+  Proof.
+    unfold lscan. rewrite map_map. cbn [fst]. apply ssorted_map_seq.
+    apply isort_ssorted; unfold seq_leb; intros; lia.
+  Qed.
+  Lemma ssorted_last_max (l : list Z) : ssorted Z.leb l -> forall y, In y l -> y <= last l 0.
+  Proof.
+    induction 1 as [|x r Hx S IH]; intros y Hy; [destruct Hy|].
+    destruct r as [|z r']; [destruct Hy as [<-|[]]; cbn; lia|].
+    change (last (x :: z :: r') 0) with (last (z :: r') 0). destruct Hy as [<-|Hy]; [|apply IH; exact Hy].
+    pose proof (Hx z (or_introl eq_refl)) as H1. pose proof (IH z (or_introl eq_refl)) as H2. lia.
+  Qed.
+
+  Lemma lfixkey_noop clock ts key l : RepL clock l -> InSpace l -> lstep compact ts key LCfixkey l = (l, RNil).
+  Proof.
+    intros R IS. cbn [lstep]. destruct (l_meta l) as [m|] eqn:E; [|reflexivity].
+    destruct (rl_meta _ _ R m E) as (hle & vk & pres & conf). destruct (IS m E) as [b1 b2].
+    set (seqs := map fst (lscan (lm_ver m) list_min_seq list_max_seq (l_elems l))).
+    assert (Mem : forall s, In s seqs <-> (exists x, In ((lm_ver m, s), x) (l_elems l)) /\ list_min_seq <= s <= list_max_seq)
+      by (intros s; apply lscan_mem).
+    assert (Srt : ssorted Z.leb seqs) by apply lscan_seqs_sorted.
+    assert (Has : forall s, lm_head m <= s <= lm_tail m -> In s seqs).
+    { intros s Hs. apply Mem. split; [|lia]. pose proof (pres s Hs) as P. unfold lmem, amem in P.
+      destruct (aget skey_eqb (lm_ver m, s) (l_elems l)) as [x|] eqn:G; [|discriminate].
+      exists x. apply (aget_In skey_eqb skey_eqb_eq); exact G. }
+    assert (Within : forall s, In s seqs -> lm_head m <= s <= lm_tail m).
+    { intros s Hs. apply Mem in Hs. destruct Hs as [[x Hx] _]. apply (conf ((lm_ver m, s), x) Hx eq_refl). }
+    assert (Hh : hd 0 seqs = lm_head m).
+    { destruct seqs as [|a r] eqn:ES; [exfalso; apply (Has (lm_head m)); lia|]. cbn [hd].
+      inversion Srt as [|? ? Ha _]; subst. pose proof (Within a (or_introl eq_refl)) as W.
+      destruct (Has (lm_head m) ltac:(lia)) as [<-|Hr]; [reflexivity|]. pose proof (Ha _ Hr). lia. }
+    assert (Ht : last seqs 0 = lm_tail m).
+    { pose proof (ssorted_last_max seqs Srt (lm_tail m) (Has (lm_tail m) ltac:(lia))) as M1.
+      assert (In (last seqs 0) seqs) as Hl.
+      { destruct seqs as [|a r] eqn:ES; [exfalso; apply (Has (lm_head m)); lia|].
+        clear. generalize a. induction r as [|z r IH]; intros a0; [left; reflexivity|]. right. apply IH. }
+      pose proof (Within _ Hl). lia. }
+    destruct (negb (contiguous seqs)); [reflexivity|]. rewrite Hh, Ht, !Z.eqb_refl. reflexivity.
+  Qed.
+
+  (* the list commands keep every list inside the sequence-number space *)
+  Lemma lstep_space clock ts key c l : RepL clock l -> InSpace l -> InSpace (fst (lstep compact ts key c l)).
+  Proof.
+    intros R IS. destruct c as [tail vs|tail|i x|start stop| | |]; cbn [lstep]; try exact IS.
+    - (* push: the new end passed the test against listMinSeq / listMaxSeq *)
+      destruct (too_many vs); [exact IS|]. destruct (negb (key_ok key)); [exact IS|].
+      destruct vs as [|x0 r0] eqn:EV; [exact IS|]. rewrite <- EV.
+      match goal with |- context [if ?b then (l, RErr) else _] => destruct b eqn:CHK end; [exact IS|].
+      match goal with |- context [if existsb ?f ?p then _ else _] => destruct (existsb f p) end; [exact IS|].
+      unfold lset_meta.
+      match goal with |- context [if ?b then None else _] => destruct b end; [exact IS|].
+      match goal with |- context [if ?b then Some None else _] => destruct b end; cbn [fst l_meta]; [intros m E; discriminate|].
+      intros m E. injection E as E1. subst m. cbn [lm_head lm_tail].
+      assert (C1 : 1 <= Z.of_nat (length vs)) by (rewrite EV; cbn [length]; lia). clear EV.
+      unfold l_size, l_head, l_tail in *. unfold list_min_seq, list_max_seq, list_initial_seq in *.
+      destruct (l_meta l) as [m0|] eqn:E0.
+      + destruct (IS m0 E0) as [a1 a2]. destruct (rl_meta _ _ R m0 E0) as (hle & _).
+        assert (0 <? lm_tail m0 - lm_head m0 + 1 = true) as EQ by lia. rewrite EQ in *.
+        unfold list_min_seq, list_max_seq in *. destruct tail; cbv iota in *; lia.
+      + change (0 <? 0) with false in *. cbv iota in *. destruct tail; cbv iota in *; lia.
+    - (* pop *)
+      destruct (negb (key_ok key)); [exact IS|]. unfold l_exists, l_size, l_head, l_tail, l_ver.
+      destruct (l_meta l) as [m0|] eqn:E0; [|exact IS]. cbn [negb]. cbv beta iota.
+      destruct (lm_tail m0 - lm_head m0 + 1 =? 0); [exact IS|].
+      match goal with |- context [match lget ?a ?b ?c with _ => _ end] => destruct (lget a b c) end; [|exact IS].
+      unfold lset_meta.
+      match goal with |- context [if ?b then None else _] => destruct b end; [exact IS|].
+      match goal with |- context [if ?b then Some None else _] => destruct b eqn:Z0 end; cbn [fst l_meta]; [intros m E; discriminate|].
+      intros m E. injection E as E1. subst m. cbn [lm_head lm_tail].
+      destruct (IS m0 E0) as [a1 a2]. destruct (rl_meta _ _ R m0 E0) as (hle & _). destruct tail; lia.
+    - (* lset *)
+      destruct (negb (key_ok key)); [exact IS|]. unfold l_exists. destruct (l_meta l) as [m0|] eqn:E0; [|exact IS]. cbn [negb].
+      destruct (l_size l =? 0); [exact IS|].
+      match goal with |- context [if ?b then (l, RErr) else _] => destruct b end; [exact IS|].
+      cbn [fst l_meta]. intros m E. injection E as E1. subst m. apply (IS m0 E0).
+    - (* ltrim *)
+      destruct (negb (key_ok key)); [exact IS|]. unfold l_exists. destruct (l_meta l) as [m0|] eqn:E0; [|exact IS]. cbn [negb].
+      destruct (IS m0 E0) as [a1 a2]. destruct (rl_meta _ _ R m0 E0) as (hle & _).
+      assert (Hs : l_size l = lm_tail m0 - lm_head m0 + 1) by (unfold l_size; rewrite E0; reflexivity).
+      assert (Hh : l_head l = lm_head m0) by (unfold l_head; rewrite E0; reflexivity).
+      set (llen := l_size l) in *.
+      set (start1 := if start <? 0 then llen + start else start).
+      set (stop1 := if stop <? 0 then llen + stop else stop).
+      set (start2 := if start1 <? 0 then 0 else start1).
+      destruct ((llen <=? start2) || (stop1 <? start2)) eqn:Emp.
+      + unfold ldelete. rewrite E0. destruct (l_size l =? 0); cbn [fst l_meta]; [exact IS|intros m E; discriminate].
+      + set (stop2 := if llen <=? stop1 then llen - 1 else stop1).
+        assert (Bd : 0 <= start2 /\ start2 <= stop2 /\ stop2 < llen)
+          by (unfold stop2, start2 in *; repeat match goal with |- context [if ?b then _ else _] => destruct b eqn:? end; lia).
+        unfold lset_meta. rewrite Hh.
+        assert (lm_head m0 + stop2 - (lm_head m0 + start2) + 1 <? 0 = false) as -> by lia.
+        assert (lm_head m0 + stop2 - (lm_head m0 + start2) + 1 =? 0 = false) as -> by lia.
+        cbn [fst l_meta]. intros m E. injection E as E1. subst m. cbn [lm_head lm_tail]. lia.
+    - (* lclear *)
+      destruct (negb (key_ok key)); [exact IS|]. unfold ldelete. destruct (l_meta l) as [m0|] eqn:E0; cbn [fst]; [|exact IS].
+      destruct (l_size l =? 0); cbn [fst l_meta]; [exact IS|intros m E; discriminate].
+    - (* lfixkey *)
+      pose proof (f_equal fst (lfixkey_noop clock ts key l R IS)) as H. cbn [lstep fst] in H. rewrite H. exact IS.
+  Qed.
+
+  Theorem lstep_rep clock ts key c l : RepL clock l -> 0 <= clock < ts -> (c = LCfixkey -> InSpace l) ->
+    RepL ts (fst (lstep compact ts key c l)).
+  Proof.
+    intros R L FK. assert (Rm : RepL ts l) by (eapply RepL_mono; [|exact R]; lia).
+    assert (FX : c = LCfixkey -> RepL ts (fst (lstep compact ts key c l)))
+      by (intros ->; rewrite (lfixkey_noop ts ts key l Rm (FK eq_refl)); exact Rm).
+    destruct c as [tail vs|tail|i x|start stop| | |]; cbn [lstep]; try exact Rm; try (apply FX; reflexivity).
     - (* push *)
       destruct (too_many vs); [exact Rm|]. destruct (negb (key_ok key)); [exact Rm|].
       destruct vs as [|x0 r0]; [exact Rm|]. set (vs := x0 :: r0) in *.
